@@ -293,6 +293,15 @@ def rule_preen(repo, chk):
     chk.ob('f', ge.ref, 'select() failures caused by bad descriptors lead to pruning', len(calls) >= 2, loc(ge, ge.node), discr='preen-called', nontrivial=False)
 
 
+def _drops_target(n, fd):
+    """statement removes the target entry of *fd*: `del self._targets[fd]` or `self._targets.pop(fd[, default])`"""
+    if n.kind != 'stmt':
+        return False
+    if isinstance(n.ast, ast.Delete) and any(src(t) == f'self._targets[{fd}]' for t in n.ast.targets):
+        return True
+    return any(r == 'self._targets' and c.args and src(c.args[0]) == fd for r, c in pat.method_calls(n.ast, 'pop'))
+
+
 def rule_e(chk, base):
     def m(name):
         f = base.methods.get(name)
@@ -309,7 +318,12 @@ def rule_e(chk, base):
         p2 = Q.escapes(g, [g.entry], lambda n: n in tg)
         chk.ob('e', f.ref, 'the descriptor is added to the interest list and its target channel recorded, on every path', bool(app) and bool(tg)
                and p1 is None and p2 is None, loc(f, f.node), discr='add')
-        ok = bool(tg) and any("getattr(" + f.params[1] in src(n.ast.value) or src(n.ast.value) == 'channel' for n in tg)
+        def from_source(n):
+            v = n.ast.value
+            if "getattr(" + f.params[1] in src(v):
+                return True
+            return isinstance(v, ast.Name) and any("getattr(" + f.params[1] in src(e) and "'channel'" in src(e) for e in pat.flows_from(f, v.id, depth=2))
+        ok = bool(tg) and all(from_source(n) for n in tg)
         chk.ob('e', f.ref, 'the recorded target is the registering component\'s channel', ok, loc(f, f.node), discr='target-is-source-channel', nontrivial=False)
     for name, lst in (('removeReader', 'self._read'), ('removeWriter', 'self._write')):
         f = m(name)
@@ -319,7 +333,7 @@ def rule_e(chk, base):
         edges = [e for n in g.nodes if n.kind == 'test' for e in n.succ if pat.fact_matches(pat.compare_fact(n.ast, e.kind), fd, ('in',), lst)]
         ok = bool(rem) and bool(edges) and any(e.dst in rem or Q.escapes(g, [e.dst], lambda n: n in rem) is None for e in edges)
         chk.ob('e', f.ref, 'a registered descriptor is removed from the interest list', ok, loc(f, f.node), discr='remove')
-        dl = [n for n in g.nodes if n.kind == 'stmt' and isinstance(n.ast, ast.Delete) and any(src(t) == f'self._targets[{fd}]' for t in n.ast.targets)]
+        dl = [n for n in g.nodes if _drops_target(n, fd)]
         okd = bool(dl)
         for n in dl:
             q1 = pat.guarded_by(g, n, pat.test_edge(lambda tt, pol: pat.fact_matches(pat.compare_fact(tt, pol), fd, ('not in',), 'self._read')))
@@ -336,7 +350,7 @@ def rule_e(chk, base):
         p = Q.escapes(g, [g.entry], lambda n: n in rem, avoid_edge=pat.test_edge(lambda tt, pol: pat.fact_matches(pat.compare_fact(tt, pol), fd, ('not in',), lst)))
         chk.ob('e', f.ref, f'discard removes the descriptor from {lst} on every path where it is present', bool(rem) and bool(edges) and p is None,
                loc(f, f.node), path=pat.path_lines(p) if p else None, discr=f'discard:{lst}')
-    dl = [n for n in g.nodes if n.kind == 'stmt' and isinstance(n.ast, ast.Delete) and any(src(t) == f'self._targets[{fd}]' for t in n.ast.targets)]
+    dl = [n for n in g.nodes if _drops_target(n, fd)]
     p = Q.escapes(g, [g.entry], lambda n: n in dl, avoid_edge=pat.test_edge(lambda tt, pol: pat.fact_matches(pat.compare_fact(tt, pol), fd, ('not in',), 'self._targets')))
     chk.ob('e', f.ref, 'discard drops the target entry on every path where it is present', bool(dl) and p is None, loc(f, f.node), discr='discard:targets')
     gt = m('getTarget')
